@@ -107,7 +107,7 @@ pub enum Token {
     EOF,
     #[regex("[\u{0020}\u{0009}]+")]
     Whitespace,
-    #[regex("\r?\n")]
+    #[regex("\r?\n|\r")]
     Newline,
     #[token("true")]
     True,
